@@ -173,6 +173,8 @@ struct Exporter {
     }
     if (auto *b = dyn_cast<BinaryOperator>(e)) {
       std::string op = b->getOpcodeStr().str();
+      if (b->isRelationalOp() && b->getLHS()->getType()->isPointerType() && b->getRHS()->getType()->isPointerType())
+        return json::Array{"b", op, tree(b->getLHS(), depth + 1), tree(b->getRHS(), depth + 1), "ptr"};
       return json::Array{b->isAssignmentOp() ? "a" : "b", op, tree(b->getLHS(), depth + 1), tree(b->getRHS(), depth + 1)};
     }
     if (auto *c = dyn_cast<CallExpr>(e)) {
@@ -186,8 +188,11 @@ struct Exporter {
       return json::Array{"c", std::move(name), std::move(ct), std::move(args), ploc(c->getBeginLoc()),
                          macros(c->getBeginLoc())};
     }
-    if (auto *k = dyn_cast<ExplicitCastExpr>(e))
+    if (auto *k = dyn_cast<ExplicitCastExpr>(e)) {
+      if (k->getCastKind() == CK_PointerToIntegral)
+        return json::Array{"k", typeStr(k->getType()), tree(k->getSubExpr(), depth + 1), 1, "p2i"};
       return json::Array{"k", typeStr(k->getType()), tree(k->getSubExpr(), depth + 1), 1};
+    }
     if (auto *q = dyn_cast<ConditionalOperator>(e))
       return json::Array{"q", tree(q->getCond(), depth + 1), tree(q->getTrueExpr(), depth + 1), tree(q->getFalseExpr(), depth + 1)};
     if (auto *s = dyn_cast<StringLiteral>(e)) {
